@@ -27,7 +27,7 @@ RULE = ("membership histories of 3-10 Add/AddWithWeight/AddWithReplicas/Remove o
         "pointers, Stringers, the nil interface, typed nil pointers, nil-receiver Stringers, and >= 3 keys that are / point to / "
         "hold a map with 4 entries), several of them with EQUAL representations; every key is looked up before every op (index "
         "order) and after it (reverse order, 3 times in a row, map keys 200 times) with the default murmur3 hash; non-trivial = at least two different "
-        "owners observed and at least one Remove or re-Add of a present node; distinct = distinct canonical case JSON; 35 % of the histories start with ONE node that is removed / re-weighted / drained before a second node joins; 20 % of the ops are followed by no lookup at all (membership ops back to back); plus, per run: cache / kv configurations loaded from JSON / YAML text with Weight omitted (default 100, 900 keys, equal shares within 60 %), kv multi-key Del of 50 keys over 2 and 3 miniredis shards compared with single-key deletes")
+        "owners observed and at least one Remove or re-Add of a present node; distinct = distinct canonical case JSON; 35 % of the histories start with ONE node that is removed / re-weighted / drained before a second node joins; 20 % of the ops are followed by no lookup at all (membership ops back to back); plus, per run: cache / kv configurations loaded from JSON / YAML text with Weight omitted (default 100, 900 keys, equal shares within 60 %), kv multi-key Del of 50 keys over 2 and 3 miniredis shards compared with single-key deletes; 2 forced interleavings of a Get parked inside the hash function while Remove(node) runs (12 random probe keys) and 2 more with 7 probe keys whose hash values are forced to the ring edges (highest position, one below, just above / at the highest surviving position, 2^64-1, 0, lowest position of the removed node; the node owning the highest position is the one removed)")
 TRUSTED = ["murmur3 (hash values tabulated by the driver; the model is parametric in the hash and only uses "
            "order/equality of positions, so the encoder rank-compresses the 64-bit values)",
            "strconv / fmt.Sprint texts of scalars and struct values (computed by the generator, compared with the observed "
@@ -188,6 +188,12 @@ def _user_cases(rng, tier):
     for _ in range(2):
         out.append({"kind": "race", "replicas": rng.choice([100, 120]), "kinds": [rng.choice(NODE_KINDS) for _ in range(3)],
                     "remove": rng.randrange(3), "probes": _gen_keys(rng, 12)})
+    # the same interleaving with probe keys whose hash values are FORCED (through the caller-supplied hash function) to the
+    # edges of the ring: the highest position (the node owning it is the one removed), one below it, just above / at the
+    # highest surviving position, 2^64-1, 0 and the lowest position of the removed node
+    for _ in range(2):
+        out.append({"kind": "race", "edge": True, "replicas": rng.choice([50, 100, 120]), "kinds": [rng.choice(NODE_KINDS) for _ in range(3)],
+                    "remove": 0, "probes": ["edge:%d" % i for i in range(7)]})
     data = []
     prefix = bytes(rng.randrange(256) for _ in range(80))
     for ln in [0, 1, 7, 8, 15, 16, 17, 31, 32, 33, 63, 64, 65, 100, 127, 128, 129, 300]:
@@ -302,12 +308,16 @@ def _optlist(xs):
     return clist([copt(None if v < 0 else cnat(v)) for v in xs])
 
 
+def _removed_node(case, obs):
+    return obs.get("removed", case["remove"]) if isinstance(obs, dict) else case["remove"]
+
+
 def encode(case, obs):
     kind = case.get("kind", "ring")
     if kind == "race":
         o3 = lambda v: copt(None if v in (-1, -3) else cnat(9999 if v == -2 else v))
         rows = [cpair(o3(r["pre"]), o3(r["ans"]), o3(r["post"])) for r in obs["rows"]]
-        return "CR %s %s %s" % (cnat(case["remove"]), clist(rows), cbool(any(r["hung"] for r in obs["rows"])))
+        return "CR %s %s %s" % (cnat(_removed_node(case, obs)), clist(rows), cbool(any(r["hung"] for r in obs["rows"])))
     if kind == "kvdel":
         nl = lambda xs: clist([cnat(x) for x in xs])
         return "CD %s %s %s %s %s %s %s %s %s" % (cnat(len(case["keys"])), cnat(obs["count"]), nl(obs["remaining"]), cbool(obs["kept"]),
@@ -370,7 +380,8 @@ def _encode_ring(case, obs):
 
 def nontrivial(case, obs):
     if case.get("kind") == "race":
-        return any(r["pre"] == case["remove"] for r in obs["rows"]) and any(r["pre"] != case["remove"] for r in obs["rows"])
+        rm = _removed_node(case, obs)
+        return any(r["pre"] == rm for r in obs["rows"]) and any(r["pre"] != rm for r in obs["rows"])
     if case.get("kind") == "kvdel":
         return any(a != b for a, b in zip(obs["owners"], obs["owners"][1:]))
     if case.get("kind") in ("dispatch", "twin"):
@@ -391,8 +402,9 @@ def nontrivial(case, obs):
 
 def bucket(case, obs):
     if case.get("kind") == "race":
-        return ["get-parked-during-remove", "race:remove-overtook-get" if any(r["overtook"] for r in obs["rows"]) else "race:remove-waited-for-get",
-                "race:keys-of-removed-node=%d" % sum(r["pre"] == case["remove"] for r in obs["rows"])]
+        return ["get-parked-during-remove" + (":forced-edge-hashes" if case.get("edge") else ""),
+                "race:remove-overtook-get" if any(r["overtook"] for r in obs["rows"]) else "race:remove-waited-for-get",
+                "race:keys-of-removed-node=%d" % sum(r["pre"] == _removed_node(case, obs) for r in obs["rows"])]
     if case.get("kind") == "kvdel":
         return ["kv-multi-key-del", "shards=%d" % case["nodes"],
                 "adjacent-owner-changes=%d" % sum(a != b for a, b in zip(obs["owners"], obs["owners"][1:]))]
@@ -449,9 +461,11 @@ def _final_members(case):
 
 def explain(case, obs):
     if case.get("kind") == "race":
-        bad = [(case["probes"][i], r) for i, r in enumerate(obs["rows"]) if r["hung"] or r["ans"] < 0 or r["ans"] not in (r["pre"], r["post"]) or r["post"] in (case["remove"], -1, -3)]
-        return ("a Get parked in the middle of its lookup while Remove(node %d) ran on a ring of 3 nodes answered neither the owner before nor "
-                "the owner after the removal (-1 = absent although two nodes were present all the time, -3 = panic), or a call hung: %s" % (case["remove"], bad[:4]))
+        rm = _removed_node(case, obs)
+        bad = [(case["probes"][i], r) for i, r in enumerate(obs["rows"]) if r["hung"] or r["ans"] < 0 or r["ans"] not in (r["pre"], r["post"]) or r["post"] in (rm, -1, -3)]
+        return ("a Get parked in the middle of its lookup while Remove(node %d) ran on a ring of 3 nodes%s answered neither the owner before nor "
+                "the owner after the removal (-1 = absent although two nodes were present all the time, -3 = panic), or a call hung: %s" % (
+                    rm, " (probe keys with hash values forced to the edges of the ring; the removed node owns the highest position)" if case.get("edge") else "", bad[:4]))
     if case.get("kind") == "kvdel":
         return ("kv Store.Del(k1..k50) over %d shards: returned %s (single-key deletes: %s), named keys still present afterwards: %s, "
                 "other keys kept: %s, errors: %s -- every named key must be removed from ITS owner shard" % (
